@@ -2,6 +2,7 @@ package core
 
 import (
 	"sort"
+	"strings"
 
 	"golang.org/x/tools/go/ssa"
 	"golang.org/x/tools/go/ssa/ssautil"
@@ -73,6 +74,11 @@ func (p *Program) inter() *interIndex {
 		return ix.funcs[i].String() < ix.funcs[j].String()
 	})
 	for _, f := range ix.funcs {
+		if strings.HasPrefix(f.Synthetic, "wrapper for") {
+			// promoted-method wrappers (struct embedding) exist for method sets only; in-package
+			// calls go to the method directly, so a wrapper is not a calling context of its own
+			continue
+		}
 		for _, b := range f.Blocks {
 			for _, in := range b.Instrs {
 				if ci, ok := in.(ssa.CallInstruction); ok {
@@ -354,4 +360,115 @@ func (p *Program) InAllContexts(site ssa.Instruction, vals []ssa.Value, within m
 		return true
 	}
 	return rec(site, vals, 0)
+}
+
+// ExecSites lists the instructions of root's own body (or of the closures
+// nested in it, when x lies in one) through which control reaches x: x itself
+// when it belongs to root, otherwise — transitively — the call or closure
+// creation in root that leads to the function containing x.  Only references
+// from functions in `within` are followed.
+func (p *Program) ExecSites(root *ssa.Function, x ssa.Instruction, within map[*ssa.Function]bool) []ssa.Instruction {
+	var out []ssa.Instruction
+	seen := map[ssa.Instruction]bool{}
+	visiting := map[*ssa.Function]bool{}
+	var rec func(x ssa.Instruction, depth int)
+	rec = func(x ssa.Instruction, depth int) {
+		fn := x.Parent()
+		if fn == root {
+			if !seen[x] {
+				seen[x] = true
+				out = append(out, x)
+			}
+			return
+		}
+		if depth > 8 || visiting[fn] {
+			return
+		}
+		visiting[fn] = true
+		defer delete(visiting, fn)
+		for _, r := range p.Refs(fn) {
+			if within != nil && !within[r.Instr.Parent()] {
+				continue
+			}
+			rec(r.Instr, depth+1)
+		}
+	}
+	rec(x, 0)
+	return out
+}
+
+// mustReach: instr lies on every path from fn's entry to a normal return.
+func mustReach(instr ssa.Instruction) bool {
+	fn := instr.Parent()
+	for _, b := range fn.Blocks {
+		if len(b.Instrs) == 0 {
+			continue
+		}
+		if _, ok := b.Instrs[len(b.Instrs)-1].(*ssa.Return); ok {
+			if b != instr.Block() && !instr.Block().Dominates(b) {
+				return false
+			}
+		}
+	}
+	return true
+}
+
+// InterDominates reports whether a is executed before b on every path of root
+// that reaches b, where a and b may lie in root or in helpers / closures
+// reachable from it.  When a lies in a helper, it must be on every path through
+// that helper (and so on up the chain).
+func (p *Program) InterDominates(root *ssa.Function, a, b ssa.Instruction, within map[*ssa.Function]bool) bool {
+	if a.Parent() == b.Parent() {
+		return InstrDominates(a, b)
+	}
+	sitesB := p.ExecSites(root, b, within)
+	if len(sitesB) == 0 {
+		return false
+	}
+	// sites of a that are certain to run a
+	var sitesA []ssa.Instruction
+	var up func(x ssa.Instruction, depth int)
+	visiting := map[*ssa.Function]bool{}
+	up = func(x ssa.Instruction, depth int) {
+		fn := x.Parent()
+		if fn == root {
+			sitesA = append(sitesA, x)
+			return
+		}
+		if depth > 8 || visiting[fn] || !mustReach(x) {
+			return
+		}
+		visiting[fn] = true
+		defer delete(visiting, fn)
+		for _, r := range p.Refs(fn) {
+			if within != nil && !within[r.Instr.Parent()] {
+				continue
+			}
+			if r.Kind != RefCall {
+				continue // a closure is not certain to run
+			}
+			up(r.Instr, depth+1)
+		}
+	}
+	up(a, 0)
+	for _, sb := range sitesB {
+		ok := false
+		for _, sa := range sitesA {
+			if sa != sb && InstrDominates(sa, sb) {
+				ok = true
+			}
+			if sa == sb {
+				// both below the same call: decide inside the callee
+				if ci, isCall := sa.(ssa.CallInstruction); isCall {
+					if callee := ci.Common().StaticCallee(); callee != nil && callee != root && p.InterDominates(callee, a, b, within) {
+						ok = true
+					}
+				}
+			}
+		}
+		if !ok {
+			return false
+		}
+	}
+	return true
 }
